@@ -61,8 +61,15 @@ Definition rep_sum_v (s : sequence) (ev : expr -> option Q) (ev_upd : string -> 
       end
   end.
 
-Definition rep_prod_v (s : sequence) (ev : expr -> option Q) (child : option Q) (cnt : expr) : option Q :=
+Definition rep_prod_v (s : sequence) (ev : expr -> option Q) (ev_upd : string -> Q -> expr -> option Q)
+           (child : option Q) (cnt : expr) : option Q :=
   match s, ev cnt, child with
+  | SCustom t it, Some c, Some cv =>
+      (* the unrolled product over the rounds of term(i) * child: the child's value once PER round *)
+      match nat_of_Q c with
+      | Some n => if Nat.leb n 40 then oprod n (fun k => omul (ev_upd it (qn k) t) (Some cv)) else None
+      | None => None
+      end
   | SConst m, Some c, Some cv =>
       match nat_of_Q c, ev m with
       | Some n, Some mv =>
@@ -220,7 +227,7 @@ Section Den.
                                          let '(rn, (rt, v)) := nr in
                                          match rt with
                                          | RAdditive => ([(rn, (rt, rep_sum_v (rep_seq rp) ev2 ev2_upd v (rep_count rp)))], true)
-                                         | RMultiplicative => ([(rn, (rt, rep_prod_v (rep_seq rp) ev2 v (rep_count rp)))], true)
+                                         | RMultiplicative => ([(rn, (rt, rep_prod_v (rep_seq rp) ev2 ev2_upd v (rep_count rp)))], true)
                                          | RQubits => ([], seq_is_constant (rep_seq rp))
                                          | ROther => ([], false)
                                          end) (vt_resources kid) in
